@@ -116,6 +116,8 @@ def draw(gen, shape, regime):
         return 3.0 * t
     if regime == 'sat':
         return 15.0 * t
+    if regime == 'confident':
+        return torch.sign(t) * (45.0 + 10.0 * t.abs())      # sigmoid rounds to exactly 0 / 1 in double precision
     return t
 
 
@@ -549,6 +551,7 @@ def correspondence(ctx):
              ('MoG', 'sample'), ('Lotka', 'logprob'), ('error', 'RuntimeError')]
     ctx.samples = [picked[k] for k in order if k in picked][:6] or list(picked.values())[:6]
     update_history(ctx)
+    usage_history(ctx)
     if not ctx.quick():
         # thorough tier: the property's own oracle (summation, quadrature, seeded KS / moment tests) always runs
         search(ctx)
@@ -587,6 +590,57 @@ def update_history(ctx, report=None):
                     report('DiagonalNormal%s: log_prob after a parameter change (%s, evaluation mode, no autograd) is not the density of the new parameters: '
                            'exp(log_prob) integrates to %.4g' % ([D], how, float(torch.exp(lp - want).mean())), case,
                            {'class': 'DiagonalNormal', 'event_shape': [D], 'symptom': 'stale-after-update'})
+
+def usage_history(ctx, report=None):
+    """ONE distribution object and ONE context tensor kept by the caller, as in a sampling loop: sample_and_log_prob / sample with that
+    tensor, then log_prob with it again.  The draws' log-densities must be log_prob of the draws under the ORIGINAL context values, the
+    context tensor must still hold them, and log_prob with it must not have moved (autograd on and off)."""
+    from nflows.distributions import normal, discrete, mixture
+    from nflows.utils import torchutils
+    gen = torch.Generator().manual_seed(ctx.seed + 6161)
+    with f64_default():
+        def mk():
+            torch.manual_seed(ctx.seed + 7)
+            return [('ConditionalDiagonalNormal', [3], normal.ConditionalDiagonalNormal([3]), 6),
+                    ('ConditionalDiagonalNormal', [2, 2], normal.ConditionalDiagonalNormal([2, 2]), 8),
+                    ('ConditionalIndependentBernoulli', [3], discrete.ConditionalIndependentBernoulli([3]), 3),
+                    ('StandardNormal', [3], normal.StandardNormal([3]), 2),
+                    ('MADEMoG', [3], mixture.MADEMoG(3, 8, 2, num_blocks=1, num_mixture_components=3, custom_initialization=True), 2)]
+        for grad in (False, True):
+            for name, shape, d, cw in mk():
+                d.eval()
+                for R, n in ((1, 1), (3, 1), (2, 4)):
+                    c = 0.6 * torch.randn(R, cw, generator=gen)
+                    c0 = c.clone()
+                    x = torch.randn(R, *shape, generator=gen)
+                    if name == 'ConditionalIndependentBernoulli':
+                        x = (x > 0).double()
+                    why = None
+                    try:
+                        with torch.set_grad_enabled(grad):
+                            lp_before = d.log_prob(x, c).detach()
+                            s, l = d.sample_and_log_prob(n, c)
+                            s, l = s.detach(), l.detach()
+                            if not torch.equal(c, c0):
+                                why = 'the context tensor handed to sample_and_log_prob was modified'
+                            want = d.log_prob(torchutils.merge_leading_dims(s, 2), torchutils.repeat_rows(c0.clone(), n)).reshape(R, n).detach()
+                            if why is None and not torch.allclose(l, want, rtol=1e-9, atol=1e-9, equal_nan=False):
+                                why = 'log-probabilities returned by sample_and_log_prob are not log_prob of the draws under the context given'
+                            d.sample(n, c)
+                            lp_after = d.log_prob(x, c).detach()
+                            if why is None and not (torch.equal(c, c0) and torch.allclose(lp_after, lp_before, rtol=1e-12, atol=1e-12)):
+                                why = 'log_prob with the same context tensor changed after sampling with it'
+                    except Exception as e:
+                        why = 'raised %s' % type(e).__name__
+                    case = {'class': name, 'event_shape': shape, 'context_rows': R, 'num_samples': n, 'autograd': grad, 'context': c0.reshape(-1).tolist(),
+                            'history': ['log_prob(x, c)', 'sample_and_log_prob(n, c)', 'sample(n, c)', 'log_prob(x, c)']}
+                    if report is None:
+                        ctx.case(key=('usage-history', name, tuple(shape), R, n, grad), branch='usage-history/' + name, nontrivial=True)
+                        if why:
+                            ctx.disagree('c05.sample/' + name, case, why, 'draws follow the density of the context given', why)
+                    elif why:
+                        report('%s%s, one context tensor kept across calls (autograd %s): %s' % (name, shape, 'on' if grad else 'off', why), case,
+                               {'class': name, 'event_shape': shape, 'symptom': 'usage-history'})
 
 
 # ------------------------------------------------------------------------------------------------------------------
@@ -768,7 +822,7 @@ def oracle_bernoulli(ctx, gen):
     for shape in SHAPES + [[10], [2, 5]]:
         D = numel(shape)
         X = torch.tensor(list(itertools.product([0.0, 1.0], repeat=D)), dtype=torch.float64).reshape(*([2 ** D] + shape))
-        for regime in ('zero', 'normal', 'sat'):
+        for regime in ('zero', 'normal', 'sat', 'confident'):
             d = discrete.ConditionalIndependentBernoulli(shape)
             c = draw(gen, [2, D], regime)
             for i in range(2):
@@ -781,9 +835,9 @@ def oracle_bernoulli(ctx, gen):
                     m = d.mean(c[i:i + 1])[0]
                 except Exception as e:
                     _fail(ctx, 'ConditionalIndependentBernoulli%s raised %s' % (shape, type(e).__name__), 'ConditionalIndependentBernoulli', shape, 'raises', case); continue
-                if abs(tot - 1) > 1e-8:
+                if not abs(tot - 1) <= 1e-8:
                     _fail(ctx, 'ConditionalIndependentBernoulli%s: exact sum over {0,1}^%d of exp(log_prob) = %.12g' % (shape, D, tot), 'ConditionalIndependentBernoulli', shape, 'sum!=1', dict(case, total=tot))
-                if list(m.shape) != shape or float((m - qm).abs().max()) > 1e-8:
+                if list(m.shape) != shape or not float((m - qm).abs().max()) <= 1e-8:
                     _fail(ctx, 'ConditionalIndependentBernoulli%s: mean() differs from sum x p(x) by %.3g' % (shape, float((m.reshape(-1) - qm.reshape(-1)).abs().max()) if m.numel() == qm.numel() else float('nan')),
                           'ConditionalIndependentBernoulli', shape, 'mean', dict(case, mean=m.tolist(), exact=qm.tolist()))
 
@@ -1147,6 +1201,7 @@ def search(ctx):
                 ctx.notes.append('oracle %s raised %r' % (part.__name__, e))
                 ctx.fail('oracle %s could not run: %r' % (part.__name__, e), {'oracle': part.__name__}, match={'class': part.__name__, 'event_shape': None, 'symptom': 'oracle-raised'})
         update_history(ctx, report=lambda what, case, match: _fail(ctx, what, match['class'], match['event_shape'], match['symptom'], case))
+        usage_history(ctx, report=lambda what, case, match: _fail(ctx, what, match['class'], match['event_shape'], match['symptom'], case))
         try:
             oracle_sampling(ctx, 12345 + ctx.seed)
         except Exception as e:
